@@ -221,9 +221,9 @@ the builder of `fields` (any length, zero-row and repeated builds included): whe
 result per `build`, and the arrays of build `k` decode (`Spec.decodeAll`: the Arrow reading rules, slot by slot), column
 by column, to exactly the documented rows `interpRow ext fields` of batch `k` — the records added since build `k-1`, in
 order, however they were added.  (A 0-row build decodes to empty columns: `DecodesTo.empty`.)
-Hypotheses: exactly those of `C01.C01_build_decode` (`Map2F`, `SchemaOKF`, `coveredF`, `Safe`, `noRaw` records). -/
+Hypotheses: exactly those of `C01.C01_build_decode` (`SchemaOKF`, `coveredF`, `Safe`, `noRaw` records). -/
 theorem C10_histories (ext : Ext) (fields : List Field) (r0 : B) (h0 : newRoot fields = .ok r0)
-    (hmap : ∀ f ∈ fields, Lemmas.C03.Map2F f) (hschema : ∀ f ∈ fields, Lemmas.C03.SchemaOKF f)
+    (hschema : ∀ f ∈ fields, Lemmas.C03.SchemaOKF f)
     (hcov : fields.all Build.coveredF = true) (hsafe : Safe r0)
     (ops : List Op) (hraw : OpsOK (fun x => noRaw x = true) ops)
     (outs : List (B × List Arr)) (fin : B) (h : run ext r0 ops = .ok (outs, fin)) :
@@ -237,14 +237,14 @@ theorem C10_histories (ext : Ext) (fields : List Field) (r0 : B) (h0 : newRoot f
   obtain ⟨_, hm⟩ := hg k h1 h2
   have hrows : ∀ x ∈ (batchesFrom [] ops)[k], noRaw x = true :=
     mem_batchesFrom (fun x => noRaw x = true) ops [] (by simp) hraw _ (List.getElem_mem h2)
-  exact C01.C01_build_decode ext fields _ _ hmap hschema hcov
+  exact C01.C01_build_decode ext fields _ _ hschema hcov
     (fun root0 hr => by rw [h0] at hr; cases hr; exact hsafe) hrows hm
 
 /-- **every build returns well-formed arrays of its batch's length** (C03 along histories): the arrays of build `k` are
 well-formed Arrow arrays of the declared fields (`Spec.WF`), one per field, each of exactly `(batch k).length` rows.
 Hypotheses: those of `C03.C03_wf`. -/
 theorem C10_builds_wf (ext : Ext) (fields : List Field) (r0 : B) (h0 : newRoot fields = .ok r0)
-    (hmap : ∀ f ∈ fields, Lemmas.C03.Map2F f) (hschema : ∀ f ∈ fields, Lemmas.C03.SchemaOKF f)
+    (hschema : ∀ f ∈ fields, Lemmas.C03.SchemaOKF f)
     (hsafe : Safe r0) (hext : Lemmas.C03.ExtOK ext)
     (ops : List Op) (hrows : OpsOK Lemmas.C03.SValOK ops)
     (outs : List (B × List Arr)) (fin : B) (h : run ext r0 ops = .ok (outs, fin)) :
@@ -256,7 +256,7 @@ theorem C10_builds_wf (ext : Ext) (fields : List Field) (r0 : B) (h0 : newRoot f
   obtain ⟨_, hg⟩ := Props.C03.All2_get hall
   intro k h1 h2
   obtain ⟨_, hm⟩ := hg k h1 h2
-  exact Props.C03.C03_wf ext fields _ _ hmap hschema (fun root0 hr => by rw [h0] at hr; cases hr; exact hsafe) hext
+  exact Props.C03.C03_wf ext fields _ _ hschema (fun root0 hr => by rw [h0] at hr; cases hr; exact hsafe) hext
     (mem_batchesFrom Lemmas.C03.SValOK ops [] (by simp) hrows _ (List.getElem_mem h2)) hm
 
 /-! ### `C10_chunking_irrelevant` -/
@@ -432,8 +432,7 @@ example : ∀ outs fin, run {} exRoot0 exOps = .ok (outs, fin) → outs.length =
       DecodesTo {} exFields outs[k].2 (batchesFrom [] exOps)[k] := by
   intro outs fin h
   have := C10_histories {} exFields exRoot0 exNew
-    (by simp [exFields, Lemmas.C03.Map2F, Lemmas.C03.Map2])
-    (by simp [exFields, Lemmas.C03.SchemaOKF, Lemmas.C03.SchemaOK, Lemmas.C03.isIntDT])
+    (by simp [exFields, Lemmas.C03.SchemaOKF, Lemmas.C03.SchemaOK])
     (by decide) (by simp [exRoot0, Safe, SafeL, B.isDict]) exOps (by unfold OpsOK; decide) outs fin h
   exact ⟨this.1, this.2.2⟩
 
